@@ -70,8 +70,14 @@ template <class C> struct Explorer {
         if (!d.accept) return "recomposed text '" + t + "' is not a URI reference";
         std::basic_string<C> w = widen<C>(t); Uri v; const C *ep;
         if (A::ParseSingleUriEx(&v, w.data(), w.data() + w.size(), &ep) != URI_SUCCESS) { A::FreeUriMembers(&v); return "recomposed text '" + t + "' does not parse"; }
-        UriObs p = observe<C>(v); A::FreeUriMembers(&v);
+        UriObs p = observe<C>(v);
+        // C11 on library-made objects: the object and the URI read back from its text have identical texts, so they must compare equal,
+        // in both orders; and the mask-required query must not tell them apart either
+        bool e1 = A::EqualsUri(&u, &v) == URI_TRUE, e2 = A::EqualsUri(&v, &u) == URI_TRUE; unsigned m1 = A::NormalizeSyntaxMaskRequired(&u), m2 = A::NormalizeSyntaxMaskRequired(&v);
+        A::FreeUriMembers(&v);
         Str what;
+        if (!e1 || !e2) return "the object does not compare equal to the URI read back from its own text '" + t + "'";
+        if (m1 != m2) return fmt("mask-required query gives %u on the object and %u on the URI read back from its text '", m1, m2) + t + "'";
         auto same = [](const RangeObs &a, const RangeObs &b) { return (a.kind != 0) == (b.kind != 0) && a.text == b.text; };
         if (!same(o.scheme, p.scheme)) what = "scheme " + o.scheme.key() + " reads back as " + p.scheme.key();
         else if (o.has_host() != p.has_host()) what = Str("authority ") + (o.has_host() ? "present" : "absent") + " in the object, " + (p.has_host() ? "present" : "absent") + " after reading back";
@@ -152,6 +158,8 @@ static std::vector<Str> initial_states(int size) {
     for (auto t : { "%2F", "%2f", "%3A", "%3a", "%40", "%3F", "%23", "%5B", "%5D", "%25", "%2E", "%2e%2E" }) {
         Str x = t; add("//u" + x + "x@h/"); add("//h" + x + "x/p"); add("//" + x); add("/a" + x + "b"); add("a" + x + "b/c"); add(x + "/b"); add("s:" + x + "b"); add("?" + x); add("#" + x); add("s://u@h" + x + ":1/" + x + "?" + x + "#" + x);
     }
+    // registered names that become the text of an IPv4 address once their triplets are decoded
+    for (auto h : { "1%2E2.3.4", "%31.2.3.4", "1.2.3.%34", "1%2e2.3.256" }) { add(Str("//") + h + "/x"); add(Str("s://u@") + h + ":1"); }
     // deeper paths over a reduced alphabet: runs of empty segments behind dot segments
     if (size >= 1) { std::vector<Str> d0 = path_token_paths({ "", ".", "..", "b" }, n + 2, 0), d1 = path_token_paths({ "", ".", "..", "b" }, n + 2, 1);
         for (auto &p : d0) { add(p); add("s:" + p); } for (auto &p : d1) { add(p); add("s:" + p); add("//h" + p); } }
